@@ -600,6 +600,26 @@ type c04SigReq struct {
 	KeySd  int    `json:"ks,omitempty"`
 	Fp     string `json:"fp"`
 	Ver    bool   `json:"ver,omitempty"`
+	BadEnc int    `json:"badenc,omitempty"` // content type 1 only: the (correctly signed) body is no valid ciphertext, see c04BadCipher
+}
+
+// c04BadCipher: bodies a client may sign and send under content type 1 although
+// they are not base64(AES-ECB(plain)). What the server does with them after the
+// gate has admitted the request is not stated (UNSPECIFIED: no panic, no hang).
+func c04BadCipher(kind int, key []byte) []byte {
+	switch kind {
+	case 1:
+		return []byte("%%% this is not base64 %%%")
+	case 2:
+		return []byte(base64.StdEncoding.EncodeToString([]byte("fifteen bytes.."))) // 15 bytes: no whole block
+	case 3:
+		return []byte(base64.StdEncoding.EncodeToString([]byte("sixteen bytes of garbage, twice.")[:16])) // one block, random padding
+	case 4:
+		return []byte("\n") // decodes to zero bytes
+	case 5:
+		return []byte("====")
+	}
+	return []byte(base64.StdEncoding.EncodeToString(make([]byte, 48))) // three zero blocks
 }
 
 func c04AesKey(seed, n int) []byte {
@@ -663,6 +683,7 @@ type c04Wire struct {
 	Abort               bool   // the body reader fails after AbortAt bytes
 	AbortAt             int
 	AbortErr            string
+	AbortMore           int // abort: the declared Content-Length exceeds the body by so many bytes
 }
 
 const c04GarbageHeader = "fingerprint=fp-a; secret=QUJDRA==; signature=QUJDRA=="
@@ -729,7 +750,11 @@ func c04SignStr(r c04SigReq, tss string) c04Wire {
 	key := c04AesKey(r.KeySd, r.KeyLen)
 	body := r.plainBody()
 	if r.CType == 1 && len(body) > 0 {
-		body = []byte(base64.StdEncoding.EncodeToString(c04EcbEncrypt(key, body)))
+		if r.BadEnc > 0 {
+			body = c04BadCipher(r.BadEnc, key)
+		} else {
+			body = []byte(base64.StdEncoding.EncodeToString(c04EcbEncrypt(key, body)))
+		}
 	}
 	w := c04Wire{Method: r.Method, Path: r.Path, Query: r.Query, ReqURI: r.ReqURI, Body: body,
 		Fingerprint: r.Fp, EncKey: r.Fp, URLPath: r.Path, URLQuery: r.Query, RURel: r.RURel, Framing: r.Fr}
@@ -832,7 +857,14 @@ func c04Verified(method string) bool {
 }
 
 var c04Tampers = []string{"time", "method", "path", "query", "body", "sig", "sig-empty", "fp-unknown", "fp-other",
-	"key", "secret-garbage", "secret-foreignkey", "noheader", "time-text", "query-drop", "body-drop", "body-suffix", "path-spelling", "path-spelling", "body-append", "body-trunc"}
+	"key", "secret-garbage", "secret-foreignkey", "noheader", "time-text", "query-drop", "body-drop", "body-suffix", "path-spelling", "path-spelling", "body-append", "body-trunc",
+	"key-notb64", "secret-notb64", "type-text"}
+
+// c04TamperJudged: alterations the statement speaks about (403). "type-text"
+// (the content-type attribute of the secret is not a number, everything else
+// intact) is run but not judged: the statement lists timestamp, method, path,
+// query, body hash and the key, not the type attribute.
+func c04TamperJudged(kind string) bool { return kind != "type-text" }
 
 // c04Tamper applies exactly one alteration to a correctly signed request.
 // It returns false when the alteration would be the identity.
@@ -959,6 +991,13 @@ func c04Tamper(w c04Wire, r c04SigReq, ts int64, kind string, arg int) (c04Wire,
 		w.RawSecret = base64.StdEncoding.EncodeToString(append(g[:], g[:]...))
 	case "secret-foreignkey":
 		w.EncKey = "C"
+	case "key-notb64":
+		// the secret decrypts, but its key attribute is not base64: no HMAC key at all
+		w.SecretPlain = strings.Replace(c04SecretPlain(r.Ver, r.CType, []byte("k"), strconv.FormatInt(ts, 10)), "key=aw==", "key=!!!not*base64!!!", 1)
+	case "secret-notb64":
+		w.RawSecret = "!!!not*base64!!!"
+	case "type-text":
+		w.SecretPlain = strings.Replace(c04SecretPlain(r.Ver, r.CType, key, strconv.FormatInt(ts, 10)), "type="+strconv.Itoa(r.CType), "type=plain", 1)
 	case "noheader":
 		w.NoHeader = true
 	default:
